@@ -279,6 +279,12 @@ func layerOrder(s string, direct retry.Backoff) string {
 		bld.BaseBackoffSpec(s)
 	}
 	stats[fmt.Sprint("spec builder base route ", how)]++
+	// a second builder alive at the same time, configured in lock step with different layers: builders are independent objects
+	var other *retry.BackoffBuilder
+	if rng.Intn(2) == 0 {
+		other = retry.NewBackoffBuilder().BaseBackoffSpec("fixed=1")
+		stats["spec builder with a bystander builder"]++
+	}
 	var want retry.Backoff = direct
 	var err error
 	nl := rng.Intn(4)
@@ -306,6 +312,16 @@ func layerOrder(s string, direct retry.Backoff) string {
 		if err != nil {
 			return "monitor: layer construction failed: " + err.Error()
 		}
+		if other != nil {
+			if i%2 == 0 {
+				other.WithLimit(1000 + i)
+			} else {
+				other.WithJitter(0.5)
+			}
+		}
+	}
+	if other != nil {
+		other.WithLimit(2000) // one more than the builder under test has
 	}
 	for round := 0; round < 2; round++ {
 		got, err := bld.Build()
